@@ -16,11 +16,13 @@ Proof.
 Qed.
 
 Section zone.
-Context (s : st) (HI : Inv s) (values : gmap nat bool) (a b : nat).
-Context (Hvals : ∀ k, is_Some (values !! k) ↔ a ≤ k ≤ b) (Hb : b < nvars s).
+Context (s : st) (HI : Inv s) (values : gmap nat bool) (a : nat).
+(* the assigned levels at or below [a] are convex, and are levels of variables *)
+Context (Hconv : ∀ i n, a ≤ i → i ≤ n → is_Some (values !! n) → is_Some (values !! i)).
+Context (Hlt : ∀ k, is_Some (values !! k) → k < nvars s).
 
 Inductive zpath : Z → Z → Prop :=
-  | zp_stop u : valid s u → b < lvl_of s u → zpath u u
+  | zp_stop u : valid s u → values !! lvl_of s u = None → zpath u u
   | zp_step u t val x : valid s u → succ s !! absn u = Some t → absn u ≠ 1%positive →
       values !! t_lvl t = Some val →
       zpath (if (val : bool) then t_hi t else t_lo t) x → zpath u (flip x u).
@@ -38,7 +40,8 @@ Proof.
   cbn [cofactor_rec].
   destruct (decide (absn u = 1%positive ∧ u ≠ 0%Z)) as [[E1 _]|Hnt].
   { intros [= <- <-]. split; [done|]. exists u, cache. split_and!; try done.
-    apply zp_stop; [done|]. rewrite (lvl_term s HI u E1). done. }
+    apply zp_stop; [done|]. rewrite (lvl_term s HI u E1).
+    apply eq_None_not_Some. intros H%Hlt. lia. }
   destruct (cache !! u) as [x|] eqn:Hcu.
   { intros [= <- <-]. split; [done|]. exists x, cache. split_and!; try done. by apply Hc. }
   destruct (node_cases s HI u Hu) as [[E El]|(t&Ht&Hn1&Hlo&Hl&Hln&Hvl&Hvh&Hhp&Hll&Hlh&Hne)].
@@ -49,8 +52,7 @@ Proof.
   rewrite <- Hl in Hll, Hlh.
   destruct (skip_below (t_lvl t) ord) as [|n ord'] eqn:Hsk.
   { intros [= <- <-]. split; [done|]. exists u, cache. split_and!; try done.
-    apply zp_stop; [done|]. destruct (decide (b < lvl_of s u)) as [|Hle]; [done|]. exfalso.
-    assert (is_Some (values !! lvl_of s u)) as Hs by (apply Hvals; lia).
+    apply zp_stop; [done|]. apply eq_None_not_Some. intros Hs.
     pose proof (skip_below_nil _ _ Hsk _ (Hord _ Hs ltac:(lia))). lia. }
   assert (Hn : t_lvl t ≤ n ∧ is_Some (values !! n)).
   { split.
@@ -58,8 +60,8 @@ Proof.
       apply bool_decide_eq_false in Hp. lia.
     - apply Hords. apply (drop_while_subset (fun k => bool_decide (k < t_lvl t))).
       unfold skip_below in Hsk. rewrite Hsk. left. }
-  destruct Hn as [Hn1' Hn2]. apply Hvals in Hn2.
-  assert (is_Some (values !! t_lvl t)) as [val Hval] by (apply Hvals; lia).
+  destruct Hn as [Hn1' Hn2].
+  assert (is_Some (values !! t_lvl t)) as [val Hval] by (apply (Hconv _ n); [lia|done|done]).
   assert (Hords' : ∀ k, k ∈ n :: ord' → is_Some (values !! k)).
   { intros k Hk. apply Hords. rewrite <- Hsk in Hk.
     by apply (drop_while_subset (fun k => bool_decide (k < t_lvl t))). }
@@ -82,19 +84,21 @@ Proof.
 Qed.
 
 (** facts about the node reached *)
-Lemma zpath_valid u x : zpath u x → valid s x ∧ b < lvl_of s x.
+Lemma zpath_valid u x : zpath u x → valid s x ∧ values !! lvl_of s x = None.
 Proof.
   induction 1 as [u Hu Hl|u t val x Hu Ht Hn Hval _ [IH1 IH2]]; [done|].
   split; [by apply valid_flip|by rewrite lvl_flip].
 Qed.
 (** when the walk starts inside the zone, the node reached has a parent in
-    the zone, reachable from [u] *)
-Lemma zpath_parent u x : zpath u x → lvl_of s u ≤ b →
-  ∃ w tw, succ s !! w = Some tw ∧ w ≠ 1%positive ∧ lvl_of s u ≤ t_lvl tw ≤ b ∧
-    (absn (t_lo tw) = absn x ∨ absn (t_hi tw) = absn x) ∧
-    (w = absn u ∨ reach (succ s) (fun k => k = absn u) w).
+    the zone *)
+Lemma zpath_parent u x : zpath u x → is_Some (values !! lvl_of s u) →
+  ∃ w tw, succ s !! w = Some tw ∧ w ≠ 1%positive ∧ lvl_of s u ≤ t_lvl tw ∧
+    is_Some (values !! t_lvl tw) ∧
+    (absn (t_lo tw) = absn x ∨ absn (t_hi tw) = absn x).
 Proof.
-  induction 1 as [u Hu Hl|u t val x Hu Ht Hn Hval Hz IH]; [lia|]. intros Hlu.
+  induction 1 as [u Hu Hl|u t val x Hu Ht Hn Hval Hz IH].
+  { intros [? H]. congruence. }
+  intros Hlu.
   assert (Elu : lvl_of s u = t_lvl t) by (unfold lvl_of; by rewrite Ht).
   set (c := if val then t_hi t else t_lo t) in *.
   assert (Habs : absn (flip x u) = absn x).
@@ -102,26 +106,75 @@ Proof.
   destruct (inv_node _ HI _ _ Ht Hn) as (_&Hvl&Hhp&Hvh&Hll&Hlh&_).
   assert (Hvc : valid s c ∧ t_lvl t < lvl_of s c) by (subst c; by destruct val).
   destruct Hvc as [Hvc Hlc].
-  destruct (decide (lvl_of s c ≤ b)) as [Hcb|Hcb].
-  - destruct (IH Hcb) as (w&tw&Hw&Hw1&Hlw&Hch&Hr). exists w, tw.
-    rewrite Habs. split_and!; try done; try lia. right.
-    assert (Hcr : reach (succ s) (fun k => k = absn u) (absn c)).
-    { assert (Hroot : reach (succ s) (fun k => k = absn u) (absn u)).
-      { apply reach_root; [done|]. apply elem_of_dom. by eexists. }
-      subst c. destruct val.
-      - apply (reach_hi _ _ (absn u) t); [done|done|]. apply Hvh.
-      - apply (reach_lo _ _ (absn u) t); [done|done|]. apply Hvl. }
-    destruct Hr as [->|Hr]; [done|].
-    clear -Hr Hcr. induction Hr as [n -> Hn|p tp Hp IHp Hsp Hl0|p tp Hp IHp Hsp Hh0].
-    + done.
-    + by apply (reach_lo _ _ p tp).
-    + by apply (reach_hi _ _ p tp).
+  destruct (values !! lvl_of s c) as [vc|] eqn:Hcb.
+  - destruct (IH ltac:(by eexists)) as (w&tw&Hw&Hw1&Hlw&Hzw&Hch). exists w, tw.
+    rewrite Habs. split_and!; try done; lia.
   - (* the child is already outside: [u] itself is the parent *)
     assert (x = c) as ->.
     { inversion Hz as [? ? ? E1 E2|? t' val' x' Hu' Ht' Hn' Hval' Hz' E1 E2]; [done|].
-      exfalso. subst. assert (is_Some (values !! t_lvl t')) as Hs by (by eexists).
-      apply Hvals in Hs. unfold lvl_of in Hcb. rewrite Ht' in Hcb. lia. }
-    exists (absn u), t. rewrite Habs. split_and!; try done; try lia; try (by left).
+      exfalso. subst. unfold lvl_of in Hcb. rewrite Ht' in Hcb. congruence. }
+    exists (absn u), t. rewrite Habs, Elu. split_and!; try done; try (by eexists).
     subst c. destruct val; [by right|by left].
 Qed.
 End zone.
+
+Lemma zpath_same s s' values u x : succ s' = succ s → zpath s' values u x → zpath s values u x.
+Proof.
+  intros E. assert (Hv : ∀ y, valid s' y → valid s y) by (intros y; unfold valid; by rewrite E).
+  assert (Hl : ∀ y, lvl_of s' y = lvl_of s y) by (intros y; unfold lvl_of; by rewrite E).
+  induction 1 as [u Hu Hn|u t val x Hu Ht Hn Hval _ IH].
+  - apply zp_stop; [by apply Hv|by rewrite <- Hl].
+  - apply (zp_step s values u t val x); try done; [by apply Hv|by rewrite <- E].
+Qed.
+
+(** the key mapping by name succeeds when the keys are declared *)
+Lemma mapM_map_key_ok s (kv : list (nat * bool)) :
+  (∀ k b, (k, b) ∈ kv → is_Some (vars s !! k)) →
+  ∃ ls, mapM (fun '(k, a) => l <- map_key true false k ;; ret (l, a)) kv s = (Ok ls, s).
+Proof.
+  induction kv as [|[k a] kv IH]; intros H; [by exists []|].
+  destruct (H k a ltac:(left)) as [l Hl]. destruct IH as [ls Hls]; [intros; eapply H; by right|].
+  exists ((l, a) :: ls). cbn [mapM].
+  rewrite bind_assoc, (bind_ok _ _ _ _ _ (map_key_name s false k l Hl)).
+  rewrite (bind_ok _ _ s (l, a) s) by done. by rewrite (bind_ok _ _ _ _ _ Hls).
+Qed.
+Lemma mtld_name_ok s (kv : list (nat * bool)) :
+  (∀ k b, (k, b) ∈ kv → is_Some (vars s !! k)) →
+  ∃ lv, map_to_level_dict true kv s = (Ok lv, s).
+Proof.
+  intros H. unfold map_to_level_dict. destruct kv as [|[k a] rest]; [by eexists|].
+  destruct (H k a ltac:(left)) as [l Hl].
+  destruct (mapM_map_key_ok s rest) as [ls Hls]; [intros; eapply H; by right|].
+  eexists. rewrite (bind_ok _ _ s tt s) by done.
+  rewrite (bind_ok _ _ _ _ _ (map_key_name s true k l Hl)).
+  rewrite (bind_ok _ _ _ _ _ Hls). reflexivity.
+Qed.
+
+Lemma rctx_roundtrip s : s <| rctx := true |> <| rctx := rctx s |> = s.
+Proof. by destruct s. Qed.
+
+Lemma cofactor_zone s u d lv : Inv s → last_len s = None → valid s u →
+  map_to_level_dict true d (s <| rctx := true |>) = (Ok lv, s <| rctx := true |>) →
+  (∀ i n, lvl_of s u ≤ i → i ≤ n → is_Some (lv !! n) → is_Some (lv !! i)) →
+  (∀ k, is_Some (lv !! k) → k < nvars s) →
+  ∃ z, cofactor u true d s = (Ok z, s) ∧ zpath s lv u z.
+Proof.
+  intros HI Hoff Hu Hmap Hconv Hlt.
+  set (s0 := s <| rctx := true |>) in *.
+  assert (HI0 : Inv s0) by (by apply Inv_rctx).
+  assert (Hu0 : valid s0 u) by done.
+  destruct (cofactor_rec (S (S (nvars s0))) u (sorted_levels (dom lv)) lv ∅ s0)
+    as [rr s2] eqn:Erec.
+  pose proof Erec as Erec'.
+  apply (cofactor_rec_zone s0 HI0 lv (lvl_of s u) Hconv Hlt) in Erec'
+    as (->&z&c&->&Hz&_); [|done|done| | |done|lia].
+  2:{ intros k Hk. apply elem_of_sorted_levels in Hk. by apply elem_of_dom. }
+  2:{ intros k Hk _. apply elem_of_sorted_levels. by apply elem_of_dom. }
+  exists z. split; [|by apply (zpath_same s s0)].
+  unfold cofactor, try_to_reorder. cbn [bind get modify].
+  unfold bind at 1, catch at 1. fold s0.
+  rewrite (bind_ok _ _ _ _ _ Hmap). cbn [bind get].
+  rewrite (proj2 (mem_valid s0 u) Hu0). unfold ensure.
+  rewrite (bind_ok _ _ s0 tt s0) by done.
+  rewrite (bind_ok _ _ _ _ _ Erec). cbn [bind modify ret fst]. by rewrite rctx_roundtrip.
+Qed.
